@@ -2,7 +2,7 @@
    steps it emitted are replayed through the model (agreement), and the property predicates are evaluated
    on the observed documents against the flat-token picture. *)
 From Coq Require Import ZArith NArith List Bool Arith.
-From PM Require Export Model.Data Model.Mark Model.Tree Model.Resolve Spec.Tokens Model.Step Model.StructOps Corr.Common Corr.Tree Corr.Steps.
+From PM Require Export Model.Data Model.Mark Model.Tree Model.Resolve Spec.Tokens Model.Step Model.StructOps Model.Fitter Model.RangeOps Corr.Common Corr.Tree Corr.Steps.
 Import ListNotations.
 Local Open Scope nat_scope.
 
@@ -16,13 +16,20 @@ Inductive squery :=
 | QSplit (pos depth : nat)
 | QJoin (pos depth : nat)
 | QLift (from to depth target : nat)
-| QWrap (from to depth : nat) (ws : list (nat * attrs)).
+| QWrap (from to depth : nat) (ws : list (nat * attrs))
+(* transform/replace.py: replace_step(doc, from, to, slice) — the fitter *)
+| QReplaceStep (from to : nat) (sl : slice)
+(* Transform.delete_range(from, to): the step it records (None: no step) *)
+| QDeleteRange (from to : nat)
+(* Transform.replace_range(from, to, slice): the step it records *)
+| QReplaceRange (from to : nat) (sl : slice).
 
 Inductive sanswer :=
 | ABool (b : bool)
 | AOptBool (o : option bool)
 | AOptNat (o : option nat)
 | AStep (st : step)
+| AOptStep (o : option step)
 | AErr (e : err).
 
 Definition sanswer_eqb (a b : sanswer) : bool :=
@@ -31,6 +38,7 @@ Definition sanswer_eqb (a b : sanswer) : bool :=
   | AOptBool x, AOptBool y => opt_eqb Bool.eqb x y
   | AOptNat x, AOptNat y => opt_eqb Nat.eqb x y
   | AStep x, AStep y => step_eqb x y
+  | AOptStep x, AOptStep y => opt_eqb step_eqb x y
   | AErr x, AErr y => err_eqb x y
   | _, _ => false
   end.
@@ -42,6 +50,13 @@ Definition run_built (s : schema) (doc : node) (r : res step) : sanswer :=
   match r with
   | Err e => AErr e
   | Ok st => match apply s st doc with ROk _ => AStep st | RFail => AErr ErrTransform | RErr e => AErr e end
+  end.
+
+Definition run_planned (s : schema) (doc : node) (r : res (option step)) : sanswer :=
+  match r with
+  | Err e => AErr e
+  | Ok None => AOptStep None
+  | Ok (Some st) => match apply s st doc with ROk _ => AOptStep (Some st) | RFail => AErr ErrTransform | RErr e => AErr e end
   end.
 
 Definition mk_range (s : schema) (doc : node) (from to depth : nat) : res noderange :=
@@ -58,6 +73,9 @@ Definition model_answer (s : schema) (doc : node) (q : squery) : sanswer :=
   | QJoin pos depth => run_built s doc (join_step pos depth)
   | QLift from to depth target => run_built s doc (do r <- mk_range s doc from to depth; lift_step s r target)
   | QWrap from to depth ws => run_built s doc (do r <- mk_range s doc from to depth; wrap_step s r ws)
+  | QReplaceStep from to sl => of_res AOptStep (replace_step s doc from to sl)
+  | QDeleteRange from to => run_planned s doc (delete_range_step s doc from to)
+  | QReplaceRange from to sl => of_res AOptStep (replace_range_step s doc from to sl)
   end.
 
 Inductive opcase :=
